@@ -102,7 +102,22 @@ pub fn make_where_clause<'a>(
 
     generics.type_params().for_each(|type_param| {
         let ident = type_param.ident.clone();
-        let mut bounds = type_param.bounds.clone();
+        // Relaxed bounds (`?Sized`) stay on the parameter's declaration, which the impl repeats:
+        // written a second time in the where clause they are an error (E0203).
+        let mut bounds: Punctuated<syn::TypeParamBound, syn::token::Plus> = type_param
+            .bounds
+            .iter()
+            .filter(|bound| {
+                !matches!(
+                    bound,
+                    syn::TypeParamBound::Trait(syn::TraitBound {
+                        modifier: syn::TraitBoundModifier::Maybe(_),
+                        ..
+                    })
+                )
+            })
+            .cloned()
+            .collect();
         if attrs
             .skip_type_params()
             .map_or(true, |skip| !skip.skip(type_param))
